@@ -299,6 +299,7 @@ def make_programs(pid, tier, rng):
                     progs += obj_programs(pid, kind, par, name, S, "battery", fn, all_loads=(pid != "C07" and not big))
                     if pid == "C07" and not big:
                         progs += alias_programs(pid, kind, par, name, S, rng)
+                        progs += [q for q in c08_programs(kind, par, name, S, rng) if "|scansave|" in q.pid]
                 elif pid == "C08":
                     progs += c08_programs(kind, par, name, S, rng)
                 elif pid == "C14":
@@ -336,6 +337,21 @@ def c08_programs(kind, par, name, S, rng):
     for rep in ("a", "b"):
         p = G.Prog("C08|%s|%s|%s|resave%s|built" % (kind, pt, name, rep))
         p.lines = [G.build_line(1, kind, par, S), "S 1 1"] + (q if usable else []) + ["S 1 2"] + (G.sec_members(1, S, rng, 6) if usable else []) + ["S 1 3", "D 1"]
+        progs.append(p)
+    # save in the middle of open scans: iterators opened before a save must deliver the same elements after it
+    if usable and len(S) >= 2:
+        p = G.Prog("C08|%s|%s|%s|scansave|built" % (kind, pt, name))
+        p.lines = [G.build_line(1, kind, par, S)]
+        if kind != "XBW":
+            p.lines += ["ET 1 1", "SN 1"]
+        if kind in G.PREFIX:
+            p.lines += ["LP 1 2 %s" % G.hx(S[0][:1]), "IN 2", "EP 1 3 %s" % G.hx(S[0][:1]), "SN 3"]
+        p.lines += ["S 1 1"]
+        if kind != "XBW":
+            p.lines += ["SD 1 %d" % (len(S) + 2), "CI 1"]
+        if kind in G.PREFIX:
+            p.lines += ["ID 2 %d" % (len(S) + 2), "CI 2", "SD 3 %d" % (len(S) + 2), "CI 3"]
+        p.lines += ["S 1 2", "D 1"]
         progs.append(p)
     # re-save of a loaded object, then load the re-saved image and query it
     for via, opt in G.load_variants(kind)[:4]:
